@@ -192,6 +192,23 @@ def run_c16(case, fail):
         ok = all((is_missing(b, ml) or (m and (b == ml or (b != b and ml != ml)))) if m else (b == v) for v, m, b in zip(flat(data), exp2, back))
         if not ok:
             fail("C16.round_trip", f"inverse_transform(transform(y)) = {back} for y = {flat(data)} (sentinel {ml!r}, classes {classes})")
+        # with an explicit class list the encoder must not depend on the array it was fitted on: fit on ONE label (the one with the
+        # shortest representation), then encode and decode the full array
+        labeled_vals = [v for v, m in zip(flat(data), exp2) if not m]
+        if classes is not None and labeled_vals:
+            short = min(labeled_vals, key=lambda v: len(str(v)))
+            sub = np.asarray(y).ravel()[[i for i, (v, m) in enumerate(zip(flat(data), exp2)) if not m and v == short][:1]]
+            if sub.dtype != object:
+                sub = np.array(sub.tolist())        # the narrowest dtype that holds this one label (e.g. '<U1')
+            try:
+                le2 = ExtLabelEncoder(classes=classes, missing_label=ml).fit(sub)
+                back2 = np.asarray(le2.inverse_transform(le2.transform(y))).ravel().tolist()
+            except Exception as e:
+                fail("C16.encoder_fitted_elsewhere_raised", f"{type(e).__name__}: {str(e)[:100]} (fitted on {sub.tolist()}, classes {classes}, y = {flat(data)})")
+                return
+            if len(back2) != len(back) or not all(a == b or (a != a and b != b) for a, b in zip(back2, back)):
+                fail("C16.round_trip_depends_on_the_fitted_array", f"encoder with classes {classes} fitted on {sub.tolist()}: inverse_transform(transform(y)) = "
+                     f"{back2}, fitted on y itself: {back} (y = {flat(data)}, sentinel {ml!r})")
 
 
 def run_c17(case, fail):
